@@ -27,6 +27,16 @@ CHECKS = {
             "All call sequences over a 12-symbol alphabet up to depth 4 (quick) or 5 (thorough) and seeded ones to depth 12 are executed on the chip model; after every RX entry / TX-mode open_tx_pipe the chip's pipe-0 state is compared with a 3-variable reference model and confirmed functionally by probe packets and an acknowledged send() through the simulated air; CE-vs-CONFIG ordering is monitored in the chip model.",
             "Trusts chip/air model decision M2; short addresses compared over the written prefix only.",
             "5 C08"),
+    "C09": ("exploration",
+            "deterministic simulation of one shared chip/CE/bus: seeded interleavings of with-blocks of 2-3 driver objects of mixed classes on clean/dirty plus/non-plus chips",
+            "Seeded interleavings of with-blocks; the chip model's complete configuration-register snapshot at the end of an object's block is compared with the snapshot right after the same object's next __enter__, and PWR_UP/CE are checked after every __exit__. The environment dimension is chip variant and dirty start state; there is no schedule or fault in this property.",
+            "Trusts the chip model's register file (incl. the non-plus ACTIVATE gate).",
+            "5 C09"),
+    "C10": ("exploration",
+            "deterministic simulation: seeded histories of accessor calls interleaved with traffic from a simulated peer (pipes, lengths, ACK payloads, failed transmissions, FIFO overflow)",
+            "Seeded histories; after update() (or the accessor's own transaction) with the medium quiescent, every accessor is compared with the chip model's FIFOs, flags, OBSERVE_TX and IRQ line; read/clear/flush are checked for exact footprints.",
+            "Trusts chip model decisions M1, M5, M6; exact-length reads only.",
+            "5 C10"),
 }
 
 REASON_PENDING = "check not built yet in this commit (planned, see DESIGN.md section 5)"
